@@ -365,7 +365,10 @@ def finish(res):
     ev = {"property_id": res.pid, "tier": res.tier, "seed": int(res.seed), "level": res.level,
           "coverage": cov, "assumptions": res.assumptions, "wall_s": round(time.time() - res.t0, 2),
           "violations": len(unknown)}
-    with open(os.path.join(EVID, res.pid + ".json"), "w") as f:
+    extra = res.pid.startswith("X")      # behaviour beyond the listed properties: own evidence directory, no property verdict lines
+    evid_dir = os.path.join(os.path.dirname(EVID), "evidence_extra") if extra else EVID
+    os.makedirs(evid_dir, exist_ok=True)
+    with open(os.path.join(evid_dir, res.pid + ".json"), "w") as f:
         json.dump(ev, f, indent=1, sort_keys=True)
         f.write("\n")
     for c, f_ in known_cls.items():
@@ -374,10 +377,10 @@ def finish(res):
     if unknown:
         for it in unknown[:5]:
             log("discrepancy:", json.dumps(it)[:600])
-        print("VIOLATION property=%s replay=%s" % (res.pid, replay))
+        print(("DEVIATION extra=%s replay=%s" if extra else "VIOLATION property=%s replay=%s") % (res.pid, replay))
         return 1
-    print("OK property=%s tier=%s states=%d traces=%d evaluations=%d wall=%.1fs" %
-          (res.pid, res.tier, res.states, res.traces, res.evaluations, time.time() - res.t0))
+    print("OK %s=%s tier=%s states=%d traces=%d evaluations=%d wall=%.1fs" %
+          ("extra" if extra else "property", res.pid, res.tier, res.states, res.traces, res.evaluations, time.time() - res.t0))
     return 0
 
 
